@@ -54,6 +54,26 @@ return (got, exp)
                                                   'bounds': 'every Unicode string s with len(s) == %d%s' % (L, (' and first char class ' + first) if first else '')})
 
 
+def _split_enum_obl(dlm, L, preserve, timeout=120):
+    """Every line of length L over the CLASS ALPHABET {quote, delimiter, space, LF, CR, 'a'}, enumerated by the solver and made concrete per
+    path: the real `re` module then runs on plain strings.  Covers what CrossHair's regex model cannot see (`$` also matches before a final LF)."""
+    alpha = tuple(sorted(set([34, ord(dlm[0]), 32, 10, 13, 97])))
+    params = [('n%d' % i, 'int') for i in range(L)] or [('dummy', 'int')]
+    pre = ['n%d in %r' % (i, alpha) for i in range(L)] or ['dummy == 0']
+    body = indent("""
+s = ''.join([chr(qh.concretize(n, ALPHA)) for n in [%s]])
+got = csv_utils.split_quoted_str(s, DLM, PRESERVE)
+exp = csvref.split_quoted(s, DLM, PRESERVE)
+if PRESERVE:
+    got = (got[0], got[1], DLM.join(got[0]))
+    exp = (exp[0], exp[1], s)
+return (got, exp)
+""" % ', '.join('n%d' % i for i in range(L)))
+    src = harness('from vf import qh\nfrom vf.refmodel import csvref\nDLM = %r\nPRESERVE = %r\nALPHA = %r\n' % (dlm, preserve, alpha), params, pre, body)
+    return Obl('split_quoted_enum[%s,preserve=%d,len=%d]' % (DLM_NAMES[dlm], preserve, L), src, timeout=timeout,
+               meta={'function': 'csv_utils.split_quoted_str', 'bounds': 'every line of length %d over the class alphabet (code points %r), solver-enumerated and concrete per path' % (L, alpha)})
+
+
 def _smart_obl(dlm, policy, L, preserve, timeout=60):
     params, pre, sexpr = str_params('s', L)
     if not params:
@@ -129,6 +149,10 @@ def obligations(tier, seed):
         for d in (',', ' '):
             obs.append(_split_obl(d, 5, False, timeout=120))
             obs.append(_split_obl(d, 5, True, timeout=120))
+        for L in (2, 3, 4):
+            obs.append(_split_enum_obl(',', L, False))
+        obs.append(_split_enum_obl(',', 4, True))
+        obs.append(_split_enum_obl(' ', 4, False))
         for L in (0, 1, 2, 3, 4):
             obs.append(_split_obl('::', L, False, timeout=90))     # multi-character delimiter (fixed defect, see known_findings.json)
             obs.append(_split_obl('::', L, True, timeout=90))
@@ -149,6 +173,10 @@ def obligations(tier, seed):
                 t = 120 if L <= 4 else (300 if L == 5 else 900)
                 obs.append(_split_obl(d, L, False, timeout=t))
                 obs.append(_split_obl(d, L, True, timeout=t))
+        for d in (',', ' ', '\t'):
+            for L in (2, 3, 4, 5):
+                obs.append(_split_enum_obl(d, L, False, timeout=900))
+                obs.append(_split_enum_obl(d, L, True, timeout=900))
         for L in range(0, 7):
             obs.append(_split_obl('::', L, False, timeout=900))
             obs.append(_split_obl('::', L, True, timeout=900))
